@@ -1386,6 +1386,8 @@ def run(rep: vlib.Reporter, tier: str, seed: int) -> None:
         "match_feature_group_criteria are not modelled; parameter equality of two filters is structural (generators avoid 2 vs 2.0)",
         "canonicalisation: rows identified by an integer id column; returned cells compared with the input cells (NaN/None = null)"]
     found = False
+    from harness import srctie      # source-text tie (Props/SrcTie.v): add_single_filters_to_feature_set regenerated from the source text = Model/FilterAttach.v (which steps get which filters)
+    found = (not srctie.check(rep)) or found
 
     # ---- dispatch (exhaustive over the enum) ----
     dc = dispatch_cases()
@@ -1740,6 +1742,10 @@ def run(rep: vlib.Reporter, tier: str, seed: int) -> None:
 def replay(path: str) -> int:
     r = json.load(open(path))["replay"]
     k = r.get("kind")
+    if k == "srctie":
+        from harness import srctie
+        srctie.replay(r, show=True)
+        return 0
     if k == "engine":
         c = dict(r)
         obs, order = run_engine(c)
